@@ -165,8 +165,10 @@ Definition judge_odcase (c : odcase) : N := code_of true (prop_odcase c).
 (* ------------------------------------------------------------------ command-line cases *)
 Record ocli := {
   cc_cwd : string;
-  (* every source: the infile argument and its make_xxx directives (kind, path, tape name) *)
-  cc_sources : list (string * list (odir * option string * option string));
+  (* every file holding directives, in assembly order: the infile argument, the `.include` operands
+     leading from it to the file (empty for the infile itself), the file's make_xxx directives
+     (kind, path, tape name) *)
+  cc_sources : list (string * list string * list (odir * option string * option string));
   cc_outfile : option string;
   cc_implicit_bin : bool;
   cc_base : Z; cc_code : list Z;                       (* the assembled image *)
